@@ -29,7 +29,8 @@ COMMON = dict(
     p_wrap=0.7,
     w_stmt=dict(raise_=0.15, syncitem=0.5),
     w_leaf=dict(err=0.15, junk=0.05, lazy=0.4),
-    lazy_modes=["ok", "ok", "ok", "raise"],
+    lazy_modes=["ok", "ok", "sync", "sync", "raise"],
+    p_ctx_sync=0.15,
     p_try_raise=0.35,
 )
 PROFILE_A = gen.profile(
